@@ -42,6 +42,11 @@ enum OpKind {
 #[derive(Debug, Clone, PartialEq, Eq, Hash)]
 enum Fault {
 	SendError,
+	/// a write fails and the close() attempted right afterwards fails too (a broken pipe); the receive half stays silent
+	SendErrorThenCloseError,
+	/// pings are enabled (every 20 ms, one tolerated inactive period of 40 ms) and the peer falls silent: writes succeed,
+	/// nothing ever arrives - the client gives the connection up and names inactivity as the cause
+	Inactivity,
 	/// the transport fails exactly when the unsubscribe request of a dropped stream is written
 	SendErrorOnUnsubscribe,
 	RecvError,
@@ -171,8 +176,13 @@ async fn run_spec(spec: &Spec) -> Out {
 		jsonrpsee_core::verif::set_thread_hook(Some(hook));
 	}
 
-	let ping_interval = if spec.fault == Fault::PingSendError { Some(Duration::from_millis(4)) } else { None };
-	let (client, mut srv) = client(ClientCfg { request_timeout: REQUEST_TIMEOUT, ping_interval, ..Default::default() });
+	let ping_interval = match spec.fault {
+		Fault::PingSendError => Some(Duration::from_millis(4)),
+		Fault::Inactivity => Some(Duration::from_millis(40)),
+		_ => None,
+	};
+	let ping_max_failures = if spec.fault == Fault::Inactivity { Some(1) } else { None };
+	let (client, mut srv) = client(ClientCfg { request_timeout: REQUEST_TIMEOUT, ping_interval, ping_max_failures, ..Default::default() });
 	let close_gate = Arc::new(Notify::new());
 	let slow_close = spec.slow_close || matches!(spec.fault, Fault::SendThenRecvError | Fault::PingSendError);
 	if slow_close {
@@ -255,9 +265,18 @@ async fn run_spec(spec: &Spec) -> Out {
 	let nonce = format!("nonce-{:x}", spec.seed & 0xffff_ffff);
 	let mut expect_dead = true;
 	let expected_cause: Option<String> = match &spec.fault {
-		Fault::SendError | Fault::SendThenRecvError => {
+		Fault::Inactivity => {
+			// nothing is injected: the peer simply never says anything again (the script answers no ping); the inactivity
+			// check fires after 40..80 ms of real time
+			tokio::time::sleep(Duration::from_millis(130)).await;
+			Some("inactive".into())
+		}
+		Fault::SendError | Fault::SendThenRecvError | Fault::SendErrorThenCloseError => {
 			let n = srv.ctl.sends.load(Ordering::SeqCst);
 			*srv.ctl.fail_from.lock().unwrap() = Some((n, format!("send failed {nonce}")));
+			if spec.fault == Fault::SendErrorThenCloseError {
+				*srv.ctl.fail_close.lock().unwrap() = Some(format!("close failed {nonce}"));
+			}
 			if spec.stall_send {
 				*srv.ctl.send_gate.lock().unwrap() = Some(send_gate.clone());
 			}
@@ -785,7 +804,11 @@ fn gen_spec(seed: u64, directed: Option<(Fault, bool, bool)>) -> Spec {
 		None => {
 			let f = match r.below(16) {
 				15 => Fault::DuplicateSubIdAnswer,
-				14 => Fault::PingSendError,
+				14 => match r.below(3) {
+					0 => Fault::PingSendError,
+					1 => Fault::SendErrorThenCloseError,
+					_ => Fault::Inactivity,
+				},
 				13 => Fault::SendThenRecvError,
 				12 => Fault::SendErrorOnUnsubscribe,
 				0 | 1 => Fault::SendError,
@@ -845,7 +868,7 @@ fn all_specs(seed: u64, n_random: u64) -> Vec<Spec> {
 	let mut v = Vec::new();
 	// fault enumeration: every fault kind x schedule variant x several histories
 	let mut faults: Vec<Fault> =
-		vec![Fault::SendError, Fault::SendThenRecvError, Fault::PingSendError, Fault::DuplicateSubIdAnswer, Fault::SendErrorOnUnsubscribe, Fault::RecvError, Fault::PeerClose, Fault::NotJson, Fault::JsonNoMessage, Fault::UnknownIdResponse, Fault::ReservedIdResponseThenServerClose, Fault::EmptyArray];
+		vec![Fault::SendError, Fault::SendErrorThenCloseError, Fault::Inactivity, Fault::SendThenRecvError, Fault::PingSendError, Fault::DuplicateSubIdAnswer, Fault::SendErrorOnUnsubscribe, Fault::RecvError, Fault::PeerClose, Fault::NotJson, Fault::JsonNoMessage, Fault::UnknownIdResponse, Fault::ReservedIdResponseThenServerClose, Fault::EmptyArray];
 	for ids in HOSTILE_IDS {
 		faults.push(Fault::BatchReplyIds(ids));
 	}
